@@ -8,7 +8,7 @@ namespace tbfsim {
 template <class Cfg> struct AlgoSelect<Cfg, EX_STARPU> { using type = TbfSmStarpuAlgorithm<typename Cfg::Real, Probe<typename Cfg::Inner>, typename Cfg::Space>; };
 template <class Cfg> struct AlgoSelect<Cfg, EX_STARPU_TSM> { using type = TbfSmStarpuAlgorithmTsm<typename Cfg::Real, Probe<typename Cfg::Inner>, typename Cfg::Space>; };
 
-struct CfgWeightStarpu {
+struct CfgWeightStarpu : CfgCommon {
     using Real = double;
     using Space = TbfDefaultSpaceIndexType<double>;
     static constexpr long NbData = 4;
